@@ -157,13 +157,13 @@ impl IdlerBeam {
     //   return Err(SPDCError("Invalid solution for optimal idler theta".into()));
     // }
 
-    let sign = (theta_s / RAD).signum();
+    // val carries the sign of theta_s (through sin), so the idler lands on the
+    // opposite side of the pump for negative signal angles as well
     let theta = if (cos(theta_s).signum() < 0.) ^ crystal_setup.counter_propagation {
       PI - f64::asin(val)
     } else {
       f64::asin(val)
-    } * sign
-      * ucum::RAD;
+    } * ucum::RAD;
     let wavelength = ls * lp / (ls - lp);
     let phi = normalize_angle(signal.phi() + PI * RAD);
 
